@@ -174,6 +174,12 @@ fn check_one(st: &mut St, cfg: &CfgD, pristine: &Emf, partner_pristine: &Emf, en
 
 fn main() {
     let mut rep = Report::from_args("C08", "exploration");
+    if let Some(path) = rep.replay.clone() {
+        // re-run exactly the recorded (config, entry) case on a fresh real formatter
+        let ok = vh_seq::emfx::replay_file(&path);
+        println!("REPLAY {}", if ok { "no violation reproduced" } else { "violation reproduced" });
+        std::process::exit(if ok { 0 } else { 1 })
+    }
     let tier = rep.tier;
     let cfgs = configs(tier);
     let pristine: Vec<Emf> = cfgs.iter().map(|c| c.build()).collect();
